@@ -6,7 +6,7 @@
    correspondence on the fragment lists the real fragment() produced (verif hook). *)
 From Coq Require Import List String ZArith NArith Bool.
 Import ListNotations.
-From DV Require Import Model.Tree Model.Tables Model.Skeleton Model.FragSkel Model.Values Model.Link Model.Fragment Model.Restore
+From DV Require Import Model.Tree Model.Tables Model.Skeleton Model.FragSkel Model.Values Model.Link Model.Fragment Model.Decorate Model.Restore
      Proofs.LinkProofs Proofs.LinkPanic Proofs.FragProofs Proofs.RestoreProofs
      Gen.Universe Gen.DataTbl Gen.FragTbl Gen.RestTbl Gen.DecTbl.
 Local Open Scope string_scope.
@@ -34,6 +34,14 @@ Proof. vm_compute. reflexivity. Qed.
    field of the same name, or constants. *)
 Theorem C03_token_values_survive_both_conversions :
   values_roundtrip universe dec_tbl rest_tbl && bools_derived universe dec_tbl = true.
+Proof. vm_compute. reflexivity. Qed.
+
+(* What link attaches reaches the dst node: every decoration point the fragment emitter offers
+   for a kind is stored by that kind's decorateNode case, after every other statement of the case,
+   and both spacings are stored.  (Model/Decorate.v, the interpreter of this table, composed with
+   the fragment and link models reproduces the dst tree of the real Decorator on every file of the
+   correspondence: values, children, decorations at every point, Before / After.) *)
+Theorem C03_decorate_stores_what_link_attaches : decorate_stores_what_link_attaches frag_tbl dec_tbl universe = true.
 Proof. vm_compute. reflexivity. Qed.
 
 (* Every case starts and ends with a decoration point: a node always offers a point before its
@@ -115,6 +123,7 @@ Proof. vm_compute. repeat split; reflexivity. Qed.
 Print Assumptions C03_fragments_cover_every_part.
 Print Assumptions C03_restorer_mirrors_decorator.
 Print Assumptions C03_token_values_survive_both_conversions.
+Print Assumptions C03_decorate_stores_what_link_attaches.
 Print Assumptions C03_every_node_bracketed_by_points.
 Print Assumptions C03_every_comment_attached.
 Print Assumptions C03_every_comment_kept.
